@@ -35,7 +35,7 @@ ASSUMPTIONS = ["the pattern library is terminating for every application order (
                "insertion; attaching ops of a detached block is"]
 JOB_TIMEOUT = {"quick": 600, "thorough": 3600}
 
-SHARDS = {"quick": (32, 75), "thorough": (64, 800)}
+SHARDS = {"quick": (32, 75), "thorough": (64, 500)}
 ANCHORS = [("PatternRewriteWalker", "rewrite_region"), ("PatternRewriteWalker", "_populate_worklist"),
            ("PatternRewriteWalker", "_process_worklist"), ("PatternRewriteWalker", "_handle_operation_insertion"),
            ("PatternRewriteWalker", "_handle_operation_removal"), ("PatternRewriteWalker", "_handle_operation_modification"),
